@@ -279,10 +279,17 @@ func finish(s *sched) {
 		w.Rec(world.Ev{Actor: "sched", Kind: "secret-mutated"})
 	}
 	if s.ref != nil {
-		for k, st := range s.ref.TakenSteps() {
+		taken := s.ref.TakenSteps()
+		for k, st := range taken {
 			if st >= 0 {
 				w.Rec(world.Ev{Actor: "loader", Kind: "config-taken", A: int64(k), B: int64(st)})
 			}
+		}
+		if goSelectChoice(w.EventsSince(0), taken) {
+			// the loader's loop found both a configuration and a lookup waiting when it became
+			// free: which one its select statement takes is the Go runtime's choice, the one
+			// source of nondeterminism in these runs the simulator does not own (see DESIGN)
+			w.Probe("go-select-choice")
 		}
 		if mut := s.ref.MutatedPublished(); len(mut) > 0 {
 			w.Rec(world.Ev{Actor: "loader", Kind: "published-mutated", S: fmt.Sprint(mut)})
@@ -298,6 +305,58 @@ func finish(s *sched) {
 		s.runTap()
 	}
 	seal(w, res)
+}
+
+// goSelectChoice: across some scheduler step boundary a published configuration had not
+// been taken by the loader yet while an admission lookup was waiting too.
+func goSelectChoice(evs []world.Ev, taken []int) bool {
+	type span struct{ from, to int }
+	var pubs, gets []span
+	k := 1 // taken[0] is the initial document
+	begin := map[int]int{}
+	last := 0
+	for _, e := range evs {
+		if e.Step > last {
+			last = e.Step
+		}
+		switch e.Kind {
+		case "publish-done":
+			if e.S == "" {
+				to := 1 << 30
+				if k < len(taken) && taken[k] >= 0 {
+					to = taken[k]
+				}
+				pubs = append(pubs, span{e.Step, to})
+				k++
+			}
+		case "get-begin":
+			begin[e.Conn] = e.Step
+		case "get-end":
+			if b, ok := begin[e.Conn]; ok {
+				gets = append(gets, span{b, e.Step})
+				delete(begin, e.Conn)
+			}
+		}
+	}
+	for _, b := range begin {
+		gets = append(gets, span{b, 1 << 30})
+	}
+	for _, p := range pubs {
+		for _, g := range gets {
+			// both waiting across the same step boundary
+			lo, hi := p.from, p.to
+			if g.from > lo {
+				lo = g.from
+			}
+			if g.to < hi {
+				hi = g.to
+			}
+			if hi > lo {
+				return true
+			}
+		}
+	}
+	return false
 }
 
 // seal closes the history: result fields and the run's hashes.
